@@ -1,7 +1,7 @@
 (* Props/C15.v — property C15: the element registry and class defaults can always be restored.
    Only statements; proofs are [exact <lemma>] into Circuit/Registry_facts.v. *)
 From Coq Require Import ZArith Bool List.
-From PV Require Import Base.Outcome Circuit.Tree Circuit.Registry Circuit.Registry_facts.
+From PV Require Import Base.Num Base.Outcome Circuit.Tree Circuit.Token Circuit.Registry Circuit.Registry_facts gen.Classes_gen.
 Import ListNotations.
 
 (* For every table of built-ins (a dictionary with distinct keys, whose private entries are built-in symbols and whose
@@ -42,5 +42,25 @@ Proof.
 Qed.
 Print Assumptions C15_bad_definitions_refused.
 
-(* NOT PROVED here (kept visible): symbols_tokenize_uniquely — for symbols of the validated shape [A-Z][a-z0-9_]* the scanner
-   splits any concatenation back into exactly those symbols (so L, La, Ls stay distinct); exercised by C04's atom enumeration. *)
+(* the built-in symbol table (regenerated from /repo on every run) is uniquely decodable by the scanner: every concatenation of
+   two or of three built-in symbols is split into exactly those symbols, so L, La, Ls or Tlm, Tlmbo, Tlmbs never shadow one another
+   (finite statement over the 23 x 23 (x 23) concatenations, decided by computation on the tokenizer model) *)
+Definition builtin_symbols : list str := map r_sym builtin_registry.
+Definition toks_are (s : str) (expect : list str) : bool :=
+  match tokenize s with
+  | Ok ts => (fix go (ts : list tok) (ex : list str) : bool :=
+                match ts, ex with
+                | [], [] => true
+                | t :: ts', e :: ex' => (match tk t with KIdent => true | _ => false end) && str_eqb (tstr t) e && go ts' ex'
+                | _, _ => false
+                end) ts expect
+  | _ => false
+  end.
+Theorem C15_builtin_symbols_tokenize_uniquely :
+  forallb (fun a => forallb (fun b => toks_are (a ++ b) [a; b]) builtin_symbols) builtin_symbols = true
+  /\ forallb (fun a => forallb (fun b => forallb (fun c => toks_are (a ++ b ++ c) [a; b; c]) builtin_symbols) builtin_symbols) builtin_symbols = true.
+Proof. split; vm_compute; reflexivity. Qed.
+Print Assumptions C15_builtin_symbols_tokenize_uniquely.
+
+(* NOT PROVED in general (kept visible): for arbitrary user symbols of the validated shape [A-Z][a-z0-9_]* the same unique
+   decodability; exercised by C04's atom enumeration. *)
